@@ -368,7 +368,9 @@ class SymbolTable(OpTrait):
         from xdsl.dialects.builtin import StringAttr, SymbolRefAttr
 
         anchor: Operation | None = op
-        while anchor is not None and not anchor.has_trait(SymbolTable):
+        while anchor is not None and not anchor.has_trait(
+            SymbolTable, value_if_unregistered=False
+        ):
             anchor = anchor.parent_op()
         if anchor is None:
             raise ValueError(f"Operation {op} has no SymbolTable ancestor")
@@ -378,7 +380,9 @@ class SymbolTable(OpTrait):
         references = (name.root_reference, *name.nested_references.data)
         for i, reference in enumerate(references):
             # Nested references can only be resolved inside of a symbol table
-            if i and not symbol_op.has_trait(SymbolTable):
+            if i and not symbol_op.has_trait(
+                SymbolTable, value_if_unregistered=False
+            ):
                 return None
             for o in symbol_op.regions[0].block.ops:
                 if (
